@@ -3,6 +3,7 @@ package main
 import (
 	"errors"
 	"fmt"
+	"os"
 	"path/filepath"
 	"sync/atomic"
 	"time"
@@ -150,6 +151,46 @@ func c08cli(n, f int, setupMode, teardownMode string, maxF, maxFR int) (row c08r
 	return row
 }
 
+// c08cliFile: the same verdict through the config-file front end (`run file cfg.yaml`): n iterations of which f fail,
+// tolerances written in the limits section - or left out of it (-1), which means "not set"
+func c08cliFile(dir string, n, f, maxF, maxFR int) (row c08row) {
+	effF, effFR := max(maxF, 0), max(maxFR, 0)
+	row = c08row{Kind: "cli", S: n - f, F: f, MaxF: effF, MaxFR: effFR, Mode: fmt.Sprintf("file(maxF=%d,maxFR=%d)", maxF, maxFR)}
+	defer func() {
+		if r := recover(); r != nil {
+			row.Panicked = true
+			row.PanicMsg = fmt.Sprint(r)
+		}
+	}()
+	ff := f
+	scen := func(t *f1testing.T) f1testing.RunFn {
+		return func(t *f1testing.T) {
+			var id int
+			fmt.Sscan(t.Iteration, &id)
+			if id <= ff {
+				t.Fail()
+			}
+		}
+	}
+	y := fmt.Sprintf("scenario: scn\nlimits:\n  max-duration: 20s\n  concurrency: 4\n  max-iterations: %d\n  ignore-dropped: true\n", n)
+	if maxF >= 0 {
+		y += fmt.Sprintf("  max-failures: %d\n", maxF)
+	}
+	if maxFR >= 0 {
+		y += fmt.Sprintf("  max-failures-rate: %d\n", maxFR)
+	}
+	y += "default:\n  mode: users\n  concurrency: 2\n  duration: 10s\nstages:\n- mode: users\n"
+	p := filepath.Join(dir, fmt.Sprintf("c08-%d.yaml", time.Now().UnixNano()))
+	if err := os.WriteFile(p, []byte(y), 0o600); err != nil {
+		row.Panicked, row.PanicMsg = true, err.Error()
+		return row
+	}
+	defer os.Remove(p)
+	err := f1.New().WithLogger(discardLogger()).Add("scn", scen).ExecuteWithArgs([]string{"run", "file", p, "-v"})
+	row.Failed = err != nil
+	return row
+}
+
 // c08cliDrops: s = bodies run (all pass), d = 1 stands for "some" (the verdict rule only asks d > 0 here: no tolerance set)
 func c08cliDrops(ign bool) (row c08row) {
 	row = c08row{Kind: "cli", D: 1, Ign: ign, Mode: "drops"}
@@ -281,6 +322,10 @@ func init() {
 		}
 		for _, k := range cases {
 			w.write(c08cli(k.n, k.f, k.sf, k.tf, k.maxF, k.mxFR))
+		}
+		// tolerances given in a config file, one at a time, both, or neither: 10 iterations, 5 of them failing
+		for _, tol := range [][2]int{{-1, -1}, {5, -1}, {4, -1}, {-1, 50}, {-1, 49}, {5, 50}, {4, 60}, {6, 40}} {
+			w.write(c08cliFile(c.out, 10, 5, tol[0], tol[1]))
 		}
 		// the CLI with dropped iterations (one slow worker, 20 requests per 10 ms): every iteration passes, so the
 		// command fails exactly when dropped iterations are not ignored
